@@ -8,6 +8,7 @@ package p2p
 
 import (
 	"errors"
+	"net"
 
 	"github.com/tendermint/tendermint/config"
 )
@@ -27,3 +28,8 @@ func (t *verifC17Transport) Cleanup(p Peer) { _ = p.CloseConn() }
 func VerifC17NewSwitch(cfg *config.P2PConfig, self NetAddress) *Switch {
 	return NewSwitch(cfg, &verifC17Transport{addr: self})
 }
+
+// VerifC17AddPeerWithConnection re-exports the package's own test helper (test_util.go): secret-connection upgrade and
+// node-info handshake over conn, then the REAL p2p peer (newPeer: MConnection whose onReceive decodes and dispatches to
+// the reactors) is added through Switch.addPeer.
+func (sw *Switch) VerifC17AddPeerWithConnection(c net.Conn) error { return sw.addPeerWithConnection(c) }
